@@ -16,6 +16,7 @@ mod c18x;
 mod c18loop;
 mod c13l2;
 mod c11l2;
+mod c05l2;
 mod c19;
 mod consts;
 mod core;
@@ -99,6 +100,7 @@ fn main() {
         "c18loop" => c18loop::run(&a),
         "c13l2" => c13l2::run(&a),
         "c11l2" => c11l2::run(&a),
+        "c05l2" => c05l2::run(&a),
         "c19" => c19::run(&a),
         "c06core" => coregen::run(&a, "C06", "C06core", &["c06"]),
         "c18core" => coregen::run(&a, "C18", "CoreMix", &["c18"]),
